@@ -160,15 +160,7 @@ func (in *Interp) ensureInit(pkg *ssa.Package) {
 		return
 	}
 	in.initDone[pkg] = true
-	for _, m := range pkg.Members {
-		if g, ok := m.(*ssa.Global); ok {
-			if _, ok := in.globals[g]; !ok {
-				c := new(Value)
-				*c = in.zero(g.Type().(*types.Pointer).Elem())
-				in.globals[g] = c
-			}
-		}
-	}
+	// globals are zeroed lazily on first access (some packages declare very large tables)
 	initFn := pkg.Func("init")
 	if initFn == nil || initFn.Blocks == nil {
 		return
